@@ -265,3 +265,82 @@ func TestC07(t *testing.T) {
 		})
 	})
 }
+
+// TestC07CutSweep enumerates EVERY transport cut offset (EOF and error) of a
+// generated client flight: everything before the cut is delivered, then the error.
+func TestC07CutSweep(t *testing.T) {
+	rec := ev.Get("C07")
+	rapid.Check(t, func(t *rapid.T) {
+		accepted := rapid.Bool().Draw(t, "accepted")
+		var first, wantFirst []byte
+		var keys []*hello.Key
+		if accepted {
+			sc := drawSealed(t, false)
+			if len(sc.Record) > 900 {
+				t.Skip("long hello: keep the sweep small")
+			}
+			first, wantFirst, keys = sc.Record, hello.Record(22, 0x0303, sc.WantInner), []*hello.Key{sc.Key}
+		} else {
+			h := hello.GenPlain(t, "plain", hello.PlainOpts{})
+			first = hello.Record(22, 0x0303, h.Message())
+			if len(first) > 900 {
+				t.Skip("long hello")
+			}
+			wantFirst = first
+		}
+		var rest []byte
+		for i, n := 0, rapid.IntRange(1, 4).Draw(t, "nrec"); i < n; i++ {
+			ct := byte(20 + rapid.IntRange(0, 3).Draw(t, "ct"))
+			l := rapid.IntRange(1, 40).Draw(t, "l")
+			if ct == 23 && rapid.IntRange(0, 3).Draw(t, "zero") == 0 {
+				l = 0
+			}
+			b := hello.GenBytes(t, "b", l)
+			if ct == 22 && l > 0 && (b[0] == 1 || b[0] == 2) {
+				b[0] = 11
+			}
+			rest = append(rest, hello.Record(ct, 0x0303, b)...)
+		}
+		chunk := []int{0, 1, 3}[rapid.IntRange(0, 2).Draw(t, "chunk")]
+		bufsize := []int{1, 5, 64, 4096}[rapid.IntRange(0, 3).Draw(t, "bufsize")]
+		for cut := len(first); cut <= len(first)+len(rest); cut++ {
+			for _, endErr := range []error{io.EOF, wire.ErrInjected} {
+				stream := append(append([]byte{}, first...), rest[:cut-len(first)]...)
+				want := append(append([]byte{}, wantFirst...), rest[:cut-len(first)]...)
+				tr := wire.New(stream, endErr)
+				if chunk > 0 {
+					tr.SetChunks(nil, chunk)
+				}
+				rp := map[string]any{"keys": keysReplay(keys), "client_stream": hx(stream), "cut": cut, "cut_error": endErr.Error(), "chunk": chunk, "bufsize": bufsize}
+				c, err := newConn(context.Background(), tr, echKeys(keys...))
+				if err != nil {
+					ev.Violation(t, "C07", rp, "NewConn failed: %v", err)
+				}
+				var got []byte
+				buf := make([]byte, bufsize)
+				for i := 0; ; i++ {
+					var n int
+					e := guard(func() error { var e error; n, e = c.Read(buf); return e })
+					got = append(got, buf[:n]...)
+					if e != nil {
+						if isPanic(e) {
+							ev.Violation(t, "C07", rp, "panic: %v", e)
+						}
+						if !errors.Is(e, endErr) {
+							ev.Violation(t, "C07", rp, "cut at %d: Read reported %v, transport ended with %v", cut, e, endErr)
+						}
+						break
+					}
+					if i > 4*len(stream)+16 {
+						ev.Violation(t, "C07", rp, "cut at %d: Read never reports the end of the stream", cut)
+					}
+				}
+				if len(got) != len(want) || !bytes.Equal(got[3:], want[3:]) {
+					ev.Violation(t, "C07", rp, "cut at offset %d (%v): backend received %d bytes before the error, %d were received from the client", cut, endErr, len(got), len(want))
+				}
+				rec.Class("cut_sweep_offset")
+			}
+		}
+		rec.Class("cut_sweep_flight")
+	})
+}
